@@ -27,7 +27,8 @@ class WideFifoH(MethodHarness):
                             wopts.append((1, pack(wl, {"count": cnt, "data": d, "max_count": mc})))
                     else:
                         wopts.append((1, pack(wl, {"count": cnt, "data": d})))
-            ropts = [(0, 0)] + [(1, k) for k in range(c["rw"] + 1)]
+            # every encodable read count, including values above read_width (the result is min(count, level, read_width))
+            ropts = [(0, 0)] + [(1, k) for k in range(1 << (c["rw"]).bit_length())]
             self._alpha = self.product({"read": ropts, "peek": [(0, 0), (1, 0)], "write": wopts, "clear": [(0, 0), (1, 0)]})
         return self._alpha
 
@@ -107,12 +108,12 @@ def jobs(tier):
 
 def run(rep, tier):
     from vlib.runner import run_big
-    rep.rule = ("complete BFS of WideFifo behind four AdapterTrans against a deque model; read counts over range(read_width+1), "
+    rep.rule = ("complete BFS of WideFifo behind four AdapterTrans against a deque model; read counts over every encodable value of the count field (also above read_width), "
                 "write (count, data[, max_count>=count]) over all values (reduced alphabet: data lanes beyond count are 0); "
                 "non-trivial = read+write in one cycle, short reads (count > available), writes refused by the fits-check, "
                 "clear with another call")
     rep.assumptions = ["pysim semantics", "1-bit elements (2-bit in two thorough configurations)",
-                       "count <= max_count (documented precondition)", "count arguments inside the declared range"]
+                       "count <= max_count (documented precondition)", "write count inside the declared range 0..write_width"]
     small, big = jobs(tier)
     rep.add_e1(run_jobs(small))
     rep.add_e1(run_big(big))
